@@ -100,7 +100,7 @@ func script(kind string, n int, rooted bool) []int {
 	var s []int
 	switch kind {
 	case "uniform", "yule", "caterpillar":
-		if n < 2 || (n < 3 && rooted) {
+		if n < 3 { // one guard since f417e91: nothing is drawn for a rejected size
 			return nil
 		}
 		s = append(s, 0)
@@ -206,7 +206,12 @@ func doGen(c *core.Ctx, kind string, n int, rooted bool, seed int64) {
 		return
 	}
 	if err != nil {
-		out("err")
+		// an error that comes together with a non-nil tree is recorded as such (class err:+tree)
+		if t != nil {
+			out("err:+tree")
+		} else {
+			out("err:" + core.Escape(err.Error()))
+		}
 		return
 	}
 	if t == nil {
